@@ -5,7 +5,7 @@
    [nb_ok nb]: every neighbour index is in range and the neighbour relation is symmetric (as a multiset of
    ordered pairs); [upairs nb] are the neighbouring pairs (i,k), i < k, with multiplicity. *)
 From Coq Require Import ZArith List Bool Reals Lra.
-From PAV Require Import Base.Res Base.NumOps Base.Sum Model.C07 Proofs.C07 Proofs.C07Rect.
+From PAV Require Import Base.Res Base.NumOps Base.Sum Model.C07 Proofs.C07 Proofs.C07Rect Proofs.C07Asm.
 Import ListNotations.
 Local Open Scope R_scope.
 
@@ -194,6 +194,42 @@ Theorem C07_reduced_is_assembly_of_regularized : forall (objs : list (nat * opti
   @inversion_matrix_reduced ROps objs = @inversion_matrix ROps (filter (@has_reg ROps) objs).
 Proof. exact T_reduced. Qed.
 
+(* ---------------- what the assembly inherits from its blocks (phase 2; proofs in Proofs/C07Asm.v) ----------------
+   The real AbstractInversion.regularization_matrix (used by every inversion class: InversionImagingMapping / WTilde,
+   the interferometer classes, MockInversion) is the same one-line block_diag over linear_obj.regularization_matrix in
+   list order that [inversion_matrix] models, for mappers and non-mapper objects (function lists) alike. *)
+Theorem C07_assembly_symmetric : forall (Bs : list (list (list R))),
+  Forall (fun B => Forall (fun r => length r = length B) B) Bs ->
+  Forall (fun B => forall a b, @mget ROps B a b = @mget ROps B b a) Bs ->
+  forall a b, @mget ROps (@block_diag ROps Bs) a b = @mget ROps (@block_diag ROps Bs) b a.
+Proof. exact T_asm_sym. Qed.
+Theorem C07_assembly_psd : forall (Bs : list (list (list R))),
+  Forall (fun B => Forall (fun r => length r = length B) B) Bs ->
+  Forall (fun B => forall x, 0 <= @quad ROps B x) Bs ->
+  forall x, 0 <= @quad ROps (@block_diag ROps Bs) x.
+Proof. exact T_asm_psd. Qed.
+Theorem C07_assembly_positive_definite : forall (Bs : list (list (list R))),
+  Forall (fun B => Forall (fun r => length r = length B) B) Bs ->
+  Forall (fun B => forall x, length x = length B -> (exists i, nth i x 0 <> 0) -> 0 < @quad ROps B x) Bs ->
+  forall x, length x = total Bs -> (exists i, nth i x 0 <> 0) -> 0 < @quad ROps (@block_diag ROps Bs) x.
+Proof. exact T_asm_pd. Qed.
+(* regularization_matrix_reduced is positive definite as soon as the matrix of every REGULARIZED object is (whatever
+   the kind of the object and wherever the objects without regularization stand in the list) *)
+Theorem C07_reduced_positive_definite : forall (objs : list (nat * option (list (list R)))),
+  Forall (fun o => match snd o with Some H => length H = fst o /\ Forall (fun r => length r = fst o) H | None => True end) objs ->
+  Forall (fun o => match snd o with
+                   | Some H => forall x, length x = length H -> (exists i, nth i x 0 <> 0) -> 0 < @quad ROps H x
+                   | None => True end) objs ->
+  forall x, length x = total (map (@obj_matrix ROps) (filter (@has_reg ROps) objs)) -> (exists i, nth i x 0 <> 0) ->
+  0 < @quad ROps (@inversion_matrix_reduced ROps objs) x.
+Proof. exact T_reduced_pd. Qed.
+Theorem C07_inversion_matrices_symmetric : forall (objs : list (nat * option (list (list R)))),
+  Forall (fun o => match snd o with Some H => length H = fst o /\ Forall (fun r => length r = fst o) H | None => True end) objs ->
+  Forall (fun o => match snd o with Some H => forall a b, @mget ROps H a b = @mget ROps H b a | None => True end) objs ->
+  (forall a b, @mget ROps (@inversion_matrix ROps objs) a b = @mget ROps (@inversion_matrix ROps objs) b a)
+  /\ (forall a b, @mget ROps (@inversion_matrix_reduced ROps objs) a b = @mget ROps (@inversion_matrix_reduced ROps objs) b a).
+Proof. exact (fun objs HW HS => conj (T_full_sym objs HW HS) (T_reduced_sym objs HW HS)). Qed.
+
 (* ---------------- rectangular meshes of EVERY shape >= 2 x 2 (the Rectangular mesh class demands >= 3 x 3) ----------------
    The model of mesh_util.rectangular_neighbors_from (the six region loops as a list of row writes, later writes win) returns
    the 4-neighbourhood of the H x W grid, and that neighbour relation is in range and symmetric: [nb_ok] holds, so the
@@ -267,6 +303,29 @@ Proof.
   - split; [reflexivity|repeat constructor].
   - intros [|a [|b x]] Hl; try discriminate. vm_compute. f_equal. lra.
 Qed.
+(* the hypotheses of C07_reduced_positive_definite / C07_inversion_matrices_symmetric are satisfiable by a mixed list:
+   an object without regularization between two regularized ones (the first a 1 x 1 block, the last a 2 x 2 one) *)
+Example C07_mixed_inversion_hypotheses :
+  let objs := [(1%nat, Some [[2]]); (2%nat, None); (2%nat, Some [[2; -1]; [-1; 2]])] in
+  Forall (fun o => match snd o with Some H => length H = fst o /\ Forall (fun r => length r = fst o) H | None => True end) objs
+  /\ Forall (fun o => match snd o with
+                      | Some H => forall x, length x = length H -> (exists i, nth i x 0 <> 0) -> 0 < @quad ROps H x
+                      | None => True end) objs
+  /\ Forall (fun o => match snd o with Some H => forall a b, @mget ROps H a b = @mget ROps H b a | None => True end) objs
+  /\ total (map (@obj_matrix ROps) (filter (@has_reg ROps) objs)) = 3%nat.
+Proof.
+  cbv zeta. split; [|split; [|split]].
+  - repeat constructor.
+  - repeat constructor; cbn [snd].
+    + intros [|a [|b x]] Hl [i Hi]; try discriminate. destruct i as [|i]; [|destruct i; cbn in Hi; lra]. cbn in Hi. vm_compute. nra.
+    + intros [|a [|b [|c x]]] Hl [i Hi]; try discriminate.
+      assert (a <> 0 \/ b <> 0) as Hab by (destruct i as [|[|i]]; cbn in Hi; [left|right|destruct i]; lra).
+      assert (0 < a * a + b * b) as Hp
+        by (destruct Hab as [H|H]; [destruct (Rtotal_order a 0) as [?|[?|?]]|destruct (Rtotal_order b 0) as [?|[?|?]]]; try lra; nra).
+      pose proof (Rle_0_sqr (a - b)) as Hq. unfold Rsqr in Hq. vm_compute. nra.
+  - repeat constructor; cbn [snd]; intros a b; destruct a as [|[|[|a]]], b as [|[|[|b]]]; reflexivity.
+  - reflexivity.
+Qed.
 Example C07_nonzero_vector : exists i, nth i [0; 0; 1; 0; 0; 0] 0 <> 0.
 Proof. exists 2%nat. cbn. apply R1_neq_R0. Qed.
 
@@ -311,3 +370,8 @@ Print Assumptions C07_assembly_size.
 Print Assumptions C07_none_is_zero_block.
 Print Assumptions C07_none_block_size.
 Print Assumptions C07_assembly_quadratic_form.
+Print Assumptions C07_assembly_symmetric.
+Print Assumptions C07_assembly_psd.
+Print Assumptions C07_assembly_positive_definite.
+Print Assumptions C07_reduced_positive_definite.
+Print Assumptions C07_inversion_matrices_symmetric.
